@@ -141,7 +141,7 @@ fn main() {
     ck.run(
         Section::pbt(
             "db-roundtrip",
-            tier.pick(1_500, 150_000),
+            tier.pick(3_000, 150_000),
             || {
                 use proptest::strategy::Strategy;
                 strat::db_strategy().prop_map(|db| DbCase { db }).boxed()
@@ -158,7 +158,7 @@ fn main() {
     ck.run(
         Section::pbt(
             "hostile-clients",
-            tier.pick(300, 20_000),
+            tier.pick(500, 20_000),
             move || {
                 use proptest::strategy::Strategy;
                 strat::hostile_strategy(thorough).boxed()
